@@ -185,10 +185,10 @@ Example pow_b : (bits (pow2 1023), bits (pow2 1024), bits (pow2 4294967295)) =
                 (0x7FE0000000000000%Z, bits infinity, bits infinity).
 Proof. vm_compute. reflexivity. Qed.
 
-(* the two mainnet subsidies: int64(float64(c) / float64(262800)) *)
-Example subsidy_old : to_int64 (of_int64 1320000000000000 / of_int64 262800) = 5022831050%Z.
+(* the two mainnet subsidies: int64(float64(inflationPerYear) / float64(262800)) *)
+Example subsidy_old : to_int64 (of_int64 132000000000000 / of_int64 262800) = 502283105%Z.
 Proof. vm_compute. reflexivity. Qed.
-Example subsidy_new : to_int64 (of_int64 800000000000000 / of_int64 262800) = 3044140030%Z.
+Example subsidy_new : to_int64 (of_int64 80000000000000 / of_int64 262800) = 304414003%Z.
 Proof. vm_compute. reflexivity. Qed.
 Example share_ceil : to_int64 (ceil (of_int64 3044140030 * c035)) = 1065449011%Z.
 Proof. vm_compute. reflexivity. Qed.
